@@ -1771,6 +1771,27 @@ def make_builtins(I):
 
     @reg("print")
     def _print(I, a, k):
+        f = k.get("file")
+        if f is None:
+            if set(k) - {"sep", "end", "flush", "file"}:
+                raise Unsupported("print(): unknown keyword")
+            return None                       # sys.stdout is not part of any modelled state
+        # CPython (Python/bltinmodule.c, builtin_print_impl): one write() per argument, one per separator, then ONE MORE for `end`;
+        # flush() afterwards only if asked.  A crash can therefore fall between the text and its newline.
+        sep, end = k.get("sep"), k.get("end")
+        sep = " " if sep is None else sep
+        end = "\n" if end is None else end
+        w = I.getattr(f, "write")
+        for i, v in enumerate(a):
+            if i:
+                I.call(w, [sep], {})              # also when the separator is empty (CPython does)
+            I.call(w, [v if isinstance(v, str) else I.call(I.builtins["str"], [v], {})], {})
+        I.call(w, [end], {})
+        fl = k.get("flush", False)
+        if not isinstance(fl, bool):
+            raise Unsupported("print(flush=<symbolic>)")
+        if fl:
+            I.call(I.getattr(f, "flush"), [], {})
         return None
 
     @reg("repr")
